@@ -161,9 +161,9 @@ class Config:
             elif isinstance(e, Operand):
                 kd = operand_kind(e)
                 if kd[0] == "reg":
-                    out.append(("op", e._name, ("reg", self.regcls_name[kd[1]])))
+                    out.append(("op", e._name, ("reg", self.reg_classes.index(kd[1]))))
                 elif kd[0] == "cons":
-                    out.append(("op", e._name, ("cons", [self.name_of[c] for c in kd[1]])))
+                    out.append(("op", e._name, ("cons", [self.classes.index(c) for c in kd[1]])))
                 else:
                     out.append(("op", e._name, kd))
             else:
@@ -260,13 +260,13 @@ def llist(xs):
 
 def lean_kind(k):
     if k[0] == "reg":
-        return f"(.reg {lstr(k[1])})"
+        return f"(.reg {k[1]})"
     if k[0] == "int":
         return ".int"
     if k[0] == "str":
         return ".str"
     if k[0] == "cons":
-        return f"(.cons {llist([lstr(n) for n in k[1]])})"
+        return f"(.cons {llist([str(n) for n in k[1]])})"
     return f"(.other {lstr(k[1])})"
 
 
